@@ -7,6 +7,7 @@ import (
 	"math"
 	"math/big"
 	"os"
+	"regexp"
 	"sort"
 	"strings"
 	"testing"
@@ -64,6 +65,9 @@ func c09Addr(e *chain.Env, i int) sdk.AccAddress {
 var (
 	c09Symbols  = []string{"abc", "abd", "kitty", "doge2", "tok", "tokb", "s23456789012345678901234567890123", "z" + strings.Repeat("9", 63)}
 	c09MinUnits = []string{"abc", "uabc", "kitty", "sat", "wei", "tok", "umax", "m" + strings.Repeat("0", 63)}
+	// denoms with a trace (IBC vouchers and the like): MsgDeployERC20 creates a module-owned token record for them; "sat"
+	// is also in the min-unit pool of issue, so a denom is reached by both routes
+	c09Traced   = []string{"ibc/27394FB092D2ECCD56123C74F36E4C1F926001CEADA9CA97EA622B25F41E5EB2", "ibc/ABCD", "sat", "gwei"}
 	c09BadNames = []string{"ab", "Abc", "ibcabc", "1abc", "htltx", "pegged", "lptoken", "tibcx", "a" + strings.Repeat("b", 64), "a-b", ""}
 )
 
@@ -102,6 +106,8 @@ type tok struct {
 	fracBurn              bool            // a fractional (in main units) burn succeeded
 	oldOwners             map[string]bool // previous owners
 	restored              bool            // went through a genesis export/import
+	contract              bool            // bound to an ERC20 contract by MsgDeployERC20
+	voucher               bool            // record created by MsgDeployERC20 for a traced denom: module-owned, no cap of its own
 }
 
 func (t *tok) unit() *big.Int { return gen.Pow10(int(t.scale)) }
@@ -134,6 +140,11 @@ func newC09() pbt.Machine[op09] {
 		panic("unexpected fee denom " + p.IssueTokenBaseFee.Denom)
 	}
 	m.feeSym = c09FeeDenom
+	// template prefix: a beacon, so that the authority can deploy ERC20 contracts
+	p.Beacon, p.EnableErc20 = "0x000000000000000000000000000000000000bEAc", true
+	if r := c.Deliver(&v1.MsgUpdateParams{Authority: c.E.Gov.String(), Params: p}); r.Outcome != chain.OK {
+		panic(fmt.Sprintf("c09 setup: params: %v", r))
+	}
 	// the pre-registered native token
 	nt := v1.GetNativeToken()
 	t := &tok{symbol: nt.Symbol, minUnit: nt.MinUnit, name: nt.Name, scale: nt.Scale, initial: nt.InitialSupply, max: nt.MaxSupply,
@@ -214,6 +225,32 @@ func lowerAlnum(s string, min, max int) bool {
 
 // ---------------------------------------------------------------------------------------------
 // generator
+
+// mixCase writes some letters after the first in upper case (bit i of mask: letter i+1); the result differs from s
+// whenever s has a letter after the first.
+func mixCase(s string, mask int) string {
+	b := []byte(s)
+	n := 0
+	for i := 1; i < len(b); i++ {
+		if b[i] >= 'a' && b[i] <= 'z' {
+			if mask>>(n%16)&1 == 1 {
+				b[i] -= 'a' - 'A'
+			}
+			n++
+		}
+	}
+	if string(b) == s {
+		for i := 1; i < len(b); i++ {
+			if b[i] >= 'a' && b[i] <= 'z' {
+				b[i] -= 'a' - 'A'
+				break
+			}
+		}
+	}
+	return string(b)
+}
+
+var erc20Name = regexp.MustCompile(`^[a-z][a-zA-Z0-9/]{2,100}$`)
 
 func bigStr(b *big.Int) string { return b.String() }
 
@@ -302,6 +339,32 @@ func (m *m09) Next(t *rapid.T) op09 {
 			return op09{Kind: "issue", Who: who, Symbol: tk.symbol, MinUnit: tk.minUnit, Name: tk.name, Scale: tk.scale,
 				Initial: tk.initial, Max: tk.max, Mintable: tk.mintable}
 		}
+	}
+	if rapid.IntRange(0, 1<<20).Draw(t, "deploy")%10 == 9 {
+		// the authority (rarely: a user) deploys an ERC20 contract: for a traced denom this creates a module-owned token
+		// record under the symbol of the message, which follows the ERC20 rule (upper-case letters allowed after the first)
+		op := op09{Kind: "deploy", Who: whoGov, Name: "erc", Scale: uint32(rapid.SampledFrom([]int{0, 6, 8, 18}).Draw(t, "dscale"))}
+		if rapid.IntRange(0, 9).Draw(t, "nonGov") == 0 {
+			op.Who = rapid.IntRange(0, 4).Draw(t, "who")
+		}
+		op.MinUnit = rapid.SampledFrom(c09Traced).Draw(t, "traced")
+		if len(m.order) > 1 && rapid.IntRange(0, 3).Draw(t, "existing") == 0 {
+			op.MinUnit = m.bySym[m.order[1+rapid.IntRange(0, len(m.order)-2).Draw(t, "tok")]].minUnit
+		}
+		taken := m.order[rapid.IntRange(0, len(m.order)-1).Draw(t, "taken")]
+		switch rapid.IntRange(0, 9).Draw(t, "symKind") {
+		case 0, 1, 2:
+			op.Symbol = rapid.SampledFrom(c09Symbols).Draw(t, "symbol")
+		case 3, 4:
+			op.Symbol = taken
+		case 5, 6, 7:
+			op.Symbol = mixCase(taken, rapid.IntRange(1, 1<<16).Draw(t, "mix"))
+		case 8:
+			op.Symbol = mixCase(rapid.SampledFrom(c09Symbols).Draw(t, "symbol"), rapid.IntRange(1, 1<<16).Draw(t, "mix"))
+		default:
+			op.Symbol = rapid.SampledFrom([]string{"atom", "ibc/ABCD", "Atom", "ab"}).Draw(t, "symOther")
+		}
+		return op
 	}
 	switch {
 	case k < 20: // issue
@@ -563,12 +626,19 @@ func (m *m09) Next(t *rapid.T) op09 {
 		if len(m.order) > 1 && rapid.IntRange(0, 3).Draw(t, "feeTok?") == 0 {
 			var cand []string
 			for _, sym := range m.order[1:] {
-				if tk := m.bySym[sym]; tk.symbol != tk.minUnit {
+				if tk := m.bySym[sym]; tk.symbol != tk.minUnit && !tk.voucher {
 					cand = append(cand, sym)
 				}
 			}
 			if len(cand) == 0 {
-				cand = m.order[1:]
+				for _, sym := range m.order[1:] {
+					if !m.bySym[sym].voucher {
+						cand = append(cand, sym)
+					}
+				}
+			}
+			if len(cand) == 0 {
+				return op
 			}
 			op.FeeSym = rapid.SampledFrom(cand).Draw(t, "feeSym")
 			if gen.BigOf(op.Base).BitLen() > 64 {
@@ -670,6 +740,46 @@ func (m *m09) Apply(op op09) error {
 			m.bySym[t.symbol], m.byMin[t.minUnit] = t, t
 			m.order = append(m.order, t.symbol)
 			m.feePaid(fee)
+		}
+
+	case "deploy":
+		msg = &v1.MsgDeployERC20{Symbol: op.Symbol, Name: op.Name, Scale: op.Scale, MinUnit: op.MinUnit, Authority: who}
+		tk := m.byMin[op.MinUnit]
+		var clash string // a token whose symbol differs from the message's by letter case only
+		for _, sym := range m.order {
+			if sym != op.Symbol && strings.EqualFold(sym, op.Symbol) {
+				clash = sym
+			}
+		}
+		switch {
+		case !erc20Name.MatchString(op.Symbol) || !erc20Name.MatchString(op.MinUnit) || op.Scale > 18:
+			v = mustReject("C09/invalid-deploy-accepted", "malformed deployment")
+		case op.Who != whoGov:
+			v = mustReject("C09/deploy-by-non-authority", "deployment by a user")
+			m.cls["deploy-by-non-authority"] = true
+		case tk != nil && tk.contract:
+			v = mustReject("C09/second-contract", "the token already has a contract")
+		case tk == nil && m.bySym[op.Symbol] != nil:
+			v = mustReject("C09/symbol-reused", "symbol already identifies a token")
+			m.cls["deploy-symbol-collision-attempt"] = true
+		}
+		commit = func() {
+			if tk != nil {
+				tk.contract = true // the record of an existing token is otherwise untouched, whatever symbol the contract got
+				m.cls["contract-deployed-for-issued-token"] = true
+				return
+			}
+			t := &tok{symbol: op.Symbol, minUnit: op.MinUnit, name: op.Name, scale: op.Scale, mintable: true, owner: c09Module.String(),
+				supply: c.Supply(op.MinUnit).BigInt(), burned: new(big.Int), oldOwners: map[string]bool{}, contract: true, voucher: true}
+			m.bySym[t.symbol], m.byMin[t.minUnit] = t, t
+			m.order = append(m.order, t.symbol)
+			m.cls["voucher-token-created"] = true
+			if clash != "" {
+				m.cls["voucher-symbol-differs-from-a-token-symbol-by-case-only"] = true
+			}
+			if op.Symbol != strings.ToLower(op.Symbol) {
+				m.cls["voucher-symbol-in-mixed-case"] = true
+			}
 		}
 
 	case "edit":
@@ -1040,7 +1150,7 @@ func (m *m09) invariants() error {
 		if sup.Cmp(t.supply) != 0 {
 			return pbt.Failf("C09/supply-mismatch", "bank supply of %s is %s, model %s", t.minUnit, sup, t.supply)
 		}
-		if !t.native && sup.Cmp(t.cap()) > 0 {
+		if !t.native && !t.voucher && sup.Cmp(t.cap()) > 0 {
 			return pbt.Failf("C09/supply-exceeds-cap", "circulating %s %s exceeds max supply %d x 10^%d", sup, t.minUnit, t.max, t.scale)
 		}
 	}
@@ -1164,7 +1274,7 @@ func (m *m09) Classify() (bool, []string) {
 	return m.nt, cl
 }
 
-const c09Rule = "rapid state machine over issue/edit/mint/burn/transfer-owner/bank-send/update-params (tax 0..1 incl. both ends, tiny base fees and mint ratios, fee quoted in stake or in an issued token with symbol != min unit)/" +
+const c09Rule = "rapid state machine over issue/edit/mint/burn/transfer-owner/bank-send/ERC20 deployment by the authority (for issued tokens and for traced denoms, whose module-owned record takes the symbol of the message: fresh, taken, or a taken one in other letter case)/update-params (tax 0..1 incl. both ends, tiny base fees and mint ratios, fee quoted in stake or in an issued token with symbol != min unit)/" +
 	"restart of the token module from its exported genesis (v1 and legacy v1beta1 mint/burn), owners, old owners, " +
 	"non-owners and poor accounts, scales 0..18, symbols/min units from overlapping 8-word pools plus malformed ones, initial/max at their limits, amounts relative to " +
 	"the remaining cap and to 10^scale; non-trivial = history with a fractional (in main units) burn followed by a max-supply edit or a mint of that token by its owner, or " +
